@@ -12,7 +12,10 @@ package util
 //@ define fenceUnavailRaw(ms, mu, r) = iosp_scaled(mu, r, false)
 //@ define fenceUnavail(ms, mu, r) = ite(iosp_ok(ms) && iosp_ok(mu), ite(iosp_scaled(ms, r, true) == 0 && iosp_scaled(mu, r, false) == 0, 1, iosp_scaled(mu, r, false)), 0)
 //@ define limitRaw(p, r) = imax(imin(scaled(p.Type, p.IntVal, p.StrVal, r, true), r), 0)
-//@ define rsLimit(p, r) = ite(r > 1 && p.Type == 1 && p.StrVal != "100%", imin(limitRaw(p, r), r - 1), limitRaw(p, r))
+// (F28) a percentage partition keeps one old pod back unless it covers the whole workload - decided on the value of the
+// percentage (>= 100), not on the spelling "100%"
+//@ define pctOf(p) = scaled(p.Type, p.IntVal, p.StrVal, 100, true)
+//@ define rsLimit(p, r) = ite(r > 1 && p.Type == 1 && pctOf(p) < 100, imin(limitRaw(p, r), r - 1), limitRaw(p, r))
 //@ define surgeOf(d, st) = ite(st == nil || st.RollingUpdate == nil, 0, fenceSurge(st.RollingUpdate.MaxSurge, st.RollingUpdate.MaxUnavailable, *d.Spec.Replicas))
 //@ define unavailOf(d, st) = ite(st == nil || st.RollingUpdate == nil || *d.Spec.Replicas == 0, 0, imin(fenceUnavail(st.RollingUpdate.MaxSurge, st.RollingUpdate.MaxUnavailable, *d.Spec.Replicas), *d.Spec.Replicas))
 
@@ -62,7 +65,8 @@ package util
 //@ requires deployment != nil && deployment.Spec.Replicas != nil
 //@ ensures spec: result == rsLimit(partition, *deployment.Spec.Replicas)
 //@ ensures bounds: 0 <= result && result <= imax(*deployment.Spec.Replicas, 0)
-//@ ensures keeps_one_old: *deployment.Spec.Replicas > 1 && partition.Type == 1 && partition.StrVal != "100%" ==> result <= *deployment.Spec.Replicas - 1
+//@ ensures keeps_one_old: *deployment.Spec.Replicas > 1 && partition.Type == 1 && pctOf(partition) < 100 ==> result <= *deployment.Spec.Replicas - 1
+//@ ensures full_partition_covers_everything: partition.Type == 1 && isPct(partition.StrVal) && pctNum(partition.StrVal) >= 100 ==> result == imax(*deployment.Spec.Replicas, 0)
 //@ pure
 
 //@ func NewRSNewReplicas
